@@ -39,3 +39,8 @@ check("C02", "translation_validation",
       "SMT semantics over symbolic tables and z3 decides multiset equality with direct evaluation for all table contents within "
       "the slot bound and all parameter values; the SQL model itself is validated against SQLite on every decided program.",
       BSV + " and sqlmodel (SMT semantics of the emitted SQLAlchemy AST)", "3/C02")
+check("C11", "translation_validation",
+      "Sequence-semantics translation validation of the real compiled statements for all sort-containing programs of the C02 "
+      "space (z3 decides ordered equality for all table contents within the slot bound and all slice bounds), plus path "
+      "assertions that buried unsliced sorts are refused and nothing is refused spuriously; statements without outer ORDER BY are "
+      "run on SQLite under both scan orders.", BSV + " and sqlmodel (ORDER BY / LIMIT / OFFSET / DISTINCT semantics)", "3/C11")
